@@ -324,3 +324,89 @@ PROPS['C06'] = dict(
                  'data races invisible to the scheduler are the business of the free-running TSan pass (supporting evidence, blind to the assembly kernels)'],
     jobs=_c06, max_report=6, min_outcomes=1,
 )
+
+# ------------------------------------------------------------------------------------------------ C07
+import math
+_C07_SIG = {'2^-30': 2.0**-30, '2^-25': 2.0**-25, '7.18e-9': 7.18e-9, '2^-15': 2.0**-15, '2.44e-5': 2.44e-5, '2^-10': 2.0**-10, '2^-5': 2.0**-5}
+def _c07_post(st, tier):
+    v = []
+    def moments(pfx):
+        n = st.get('sum_' + pfx + '/n', 0)
+        if n < 1000: return None
+        s1, s2, s4 = st['sum_' + pfx + '/s1'], st['sum_' + pfx + '/s2'], st['sum_' + pfx + '/s4']
+        mean = s1 / n; var = s2 / n - mean * mean
+        return n, mean, math.sqrt(max(var, 0)), (s4 / n) / (s2 / n) ** 2 if s2 else 0, st.get('max_' + pfx + '/maxabs', 0), st.get('sum_' + pfx + '/zeros', 0)
+    for name, sig in list(_C07_SIG.items()) + [('ENC', 2.0**-15)]:
+        pfx = 'lweSymEncrypt/2^-15' if name == 'ENC' else 'gauss/' + name
+        m = moments(pfx)
+        if not m: continue
+        n, mean, sd, kurt, mx, zeros = m; su = sig * 2.0**32; tol = max(1e-3, 8 / math.sqrt(2 * n))
+        what = ('error of lweSymEncrypt (sigma 2^-15)' if name == 'ENC' else 'gaussian32(0, %s)' % name) + ' over %d generator states' % n
+        if abs(mean) > tol * su + 1: v.append((pfx + '/mean', '%s: mean %.4f units (sigma = %.1f units)' % (what, mean, su)))
+        if abs(sd - su) > tol * su + 1: v.append((pfx + '/stdev', '%s: stdev %.4f units, configured %.4f (ratio %.6f)' % (what, sd, su, sd / su)))
+        if su >= 64 and abs(kurt - 3) > max(0.02, 8 * math.sqrt(24 / n)): v.append((pfx + '/kurtosis', '%s: kurtosis %.4f, a gaussian has 3' % (what, kurt)))
+        if mx < 4 * su - 1: v.append((pfx + '/tails', '%s: largest |error| %.1f units < 4 sigma: no tails' % (what, mx)))
+        if su >= 64 and zeros > n / 8: v.append((pfx + '/zeros', '%s: %d of %d draws are exactly 0' % (what, zeros, n)))
+    n = st.get('sum_uniform/n', 0)
+    if n > 1000:
+        tol = max(1e-3, 8 / math.sqrt(n))
+        mean = st['sum_uniform/s1'] / n; var = st['sum_uniform/s2'] / n - mean * mean; lag = (st['sum_uniform/lag'] / n - mean * mean) / var if var else 1
+        if abs(var * 12 - 1) > 4 * tol: v.append(('uniform/variance', 'uniform torus draws over %d states: 12*variance = %.6f' % (n, var * 12)))
+        if abs(mean) > tol: v.append(('uniform/mean', 'uniform torus draws: mean %.6f' % mean))
+        if abs(lag) > 2 * tol: v.append(('uniform/lag1', 'uniform torus draws: correlation between consecutive draws %.6f' % lag))
+        htol = max(1e-3, 8 / math.sqrt(n / 256))
+        for b in range(4):
+            for x in range(256):
+                h = st.get('sum_uniform/hist/%d/%03d' % (b, x), 0) * 256 / n
+                if abs(h - 1) > htol:
+                    v.append(('uniform/hist/byte%d' % b, 'uniform torus draws: byte %d takes value %d with relative frequency %.5f (flat = 1, tolerance %.5f)' % (b, x, h, htol))); break
+        ones = st.get('sum_keybit/ones', 0) / n
+        if abs(ones - 0.5) > max(1e-4, 4 / math.sqrt(n)): v.append(('keybit/frequency', 'key bits over %d states: frequency of 1 is %.6f' % (n, ones)))
+    return v
+def _c07(tier, seed):
+    q = tier == 'quick'
+    jobs = J('c07.cpp', 'optim', 'spqlios-fma', n=(8 if q else 16), args=['part=states'], ldflags='-ldl', deadline=(100 if q else 2400), timeout=(300 if q else 3000))
+    jobs += J('c07.cpp', 'optim', 'spqlios-fma', n=(5 if q else 8), args=['part=objects'], ldflags='-ldl', deadline=(100 if q else 2400), timeout=(300 if q else 3000))
+    jobs += J('c07.cpp', 'optim', 'spqlios-fma', n=3, args=['part=seeding'], ldflags='-ldl')
+    if not q:
+        jobs += J('c07.cpp', 'optim', 'fftw', n=6, args=['part=objects', 'K=2'], ldflags='-ldl', deadline=2400, timeout=3000) + J('c07.cpp', 'debug', 'nayuki-portable', n=3, args=['part=seeding'], ldflags='-ldl')
+    return jobs
+PROPS['C07'] = dict(
+    level='exploration',
+    rule='(a) every state of the library generator (minstd_rand0, 2^31-2 states; quick: the residue class VERIF_SEED mod 64): one gaussian32 draw per sigma, a uniform torus draw and its successor, a key bit, two lweSymEncrypt (n=2); '
+         'population moments judged on the merged sums (mean, stdev/sigma, kurtosis, tails, byte histograms, lag-1 correlation). (b) (parameter set, key seed): error of every key-switching row and every bootstrapping-key coefficient '
+         'computed with the secret keys, stratified by digit/value/key bit/block/row/lane: stdev within 8 estimator sigma (+1.5 units) of the configured level, |e| <= 8 sigma, h=0 rows trivial, masks flat, keys binary and balanced, '
+         're-keyed objects. (c) (seed, history pair): re-seeding reproduces the same bytes after any history; different seeds differ; no other entropy source reached. non-trivial = state / stratum with >= 200 errors / non-empty history',
+    bounds={'quick': 'states: 1/64 of all 2^31 states (3.3e7) for sigma in {2^-30,2^-25,2^-15}; objects: default-128, default-80 (1 seed) + 8 small sets x 2 seeds; seeding: 3 seeds x 11x11 history pairs',
+            'thorough': 'all 2^31-2 states x 7 sigma; default sets x 4 seeds, 24 small sets x 8 seeds; two back-ends'},
+    assumptions=['distributions depend on libstdc++ normal_distribution / uniform_int_distribution (trusted base)', 'statistical acceptance regions are >= 8 estimator standard deviations wide, as the property prescribes'],
+    jobs=_c07, post=_c07_post, max_report=10,
+)
+
+# ------------------------------------------------------------------------------------------------ C02
+def _c02(tier, seed):
+    jobs = []
+    if tier == 'quick':
+        for lam in (128, 80):
+            jobs += J('c02.cpp', 'optim', 'spqlios-fma', args=['part=bfs', 'w=2', 'lambda=%d' % lam, 'threads=7'], timeout=600, deadline=400)
+            jobs += J('c02.cpp', 'optim', 'spqlios-fma', args=['part=corpus', 'lambda=%d' % lam])
+        return jobs
+    for lam in (128, 80):
+        jobs += J('c02.cpp', 'optim', 'spqlios-fma', args=['part=bfs', 'w=3', 'lambda=%d' % lam, 'threads=8'], timeout=6000, deadline=5400)
+        jobs += J('c02.cpp', 'optim', 'spqlios-fma', args=['part=corpus', 'lambda=%d' % lam], timeout=3000, deadline=2400)
+    for be in ['fftw', 'nayuki-avx', 'nayuki-portable', 'spqlios-avx']:
+        jobs += J('c02.cpp', 'optim', be, args=['part=bfs', 'w=2', 'lambda=128', 'threads=4'], timeout=6000, deadline=5400)
+    jobs += J('c02.cpp', 'debug', 'spqlios-fma', args=['part=bfs', 'w=2', 'lambda=80', 'threads=4'], timeout=6000, deadline=5400)
+    return jobs
+PROPS['C02'] = dict(
+    level='model_checking',
+    technique='explicit-state breadth-first search over the real transition function (every gate x every register choice executed on the real library with real default keys), abstract-state hashing, fix-point; plus a plaintext-interpreter corpus',
+    rule='state = register file of w ciphertexts, abstract key = per register (bit, kind in {T,F,B,M,P}); transitions = 14 gates x every destination/source choice (in-place and shared inputs included) + FRESH + INJECT(+-) at the admissible limit; '
+         'BFS to the fix-point, one concrete representative per abstract state. oracles per transition: decryption == plaintext netlist, |output error| < 3/64; per pool (>= 500 outputs): stdev < bound (0.0037 / 0.0047, x1.35 MUX), |mean| <= bound/4; '
+         'strata (input class, depth, in-place, shared inputs; >= 2000 outputs each) agree within 8 estimator sigma. non-trivial = pools/strata judged',
+    bounds={'quick': 'w=2 (100 abstract states x 116 operations = 11600 transitions per parameter set) for both default sets on spqlios-fma; corpus: 8-bit adder x2, comparator, 8:1 MUX tree, 200-gate in-place chain, fan-out parity net',
+            'thorough': 'w=3 (1000 abstract states x 423 operations) for both sets; w=2 on the other four back-ends and on debug; 1000-gate chain'},
+    assumptions=['the abstraction (bit, kind) is sound iff a bootstrapped output\'s noise does not depend on its history - which is the second half of the property and is checked on the same run (strata by input class and depth)',
+                 'fresh ciphertexts inside the search are made by the harness with the parameter set\'s noise level and a deterministic generator (library encryption is C03/C07)'],
+    jobs=_c02, min_outcomes=10,
+)
